@@ -169,6 +169,9 @@ class Harness:
         if job.id not in self.model[hp]:
             return "skip"
         k, v = self.rnd.choice(KEYS), copy.deepcopy(self.rnd.choice(VALS))
+        if dep_trigger(self.model[hp][job.id][1], {k: json.loads(json.dumps(v))}):
+            # another live handle that still holds the old value would re-load it through the dependency's _update: findings F23 / F24 (probed separately)
+            return "skip"
         job.doc[k] = v
         self.model[hp][job.id][1][k] = json.loads(json.dumps(v))
         return f"doc[{k}]={v!r} on {job.id[:6]}"
@@ -216,6 +219,18 @@ class Harness:
         hp = self.hproj(job)
         job.remove()
         self.model[hp].pop(job.id, None)
+        # independent handles of the removed job that had opened its document keep that document in memory (nothing tells them, and the
+        # dependency keeps in-memory data when the file is gone): known finding F27, probed separately -- they leave the live-handle checks
+        keep = []
+        for pj, h2 in self.handles:
+            try:
+                same_job = h2 is not job and h2.id == job.id and os.path.realpath(h2.project.path) == os.path.realpath(job.project.path)
+            except Exception:
+                same_job = False
+            if same_job and getattr(h2, "_document", None) is not None:
+                continue
+            keep.append((pj, h2))
+        self.handles = keep
         return f"remove {job.id[:6]}"
 
     def op_clear(self):
@@ -499,6 +514,22 @@ def probe_known():
         j.statepoint = {"c": True}
         if j.statepoint()["c"] is not True:
             KNOWN_SEEN.add("dep:equal-value-other-type-ignored")
+        # the same dependency defect through documents: a second handle that holds a list re-loads None written by another handle
+        j2 = j.project.open_job(id=j.id)
+        j.doc["k"] = [1, 2]
+        j2.doc["k"]
+        j.doc["k"] = None
+        if json.loads(json.dumps(j2.doc())) != {"k": None}:
+            KNOWN_SEEN.add("dep:none-over-mapping-ignored")
+        # F27: a second handle's opened document survives remove() and comes back into the re-created job
+        j3 = j.project.open_job({"f27": 1}).init()
+        j3.doc["x"] = 1
+        k3 = j3.project.open_job(id=j3.id)
+        k3.doc["x"]
+        j3.remove()
+        j3.init()
+        if json.loads(json.dumps(k3.doc())) != {}:
+            KNOWN_SEEN.add("doc:other-handle-survives-remove")
         import pickle
         j.sp
         try:
